@@ -1251,3 +1251,168 @@ func noCustomDecoding(c *Ctx, id string) {
 	// fields of the configuration whose types come from elsewhere in the module with a decoder of their own
 	c.Check(nTypes >= 10 && bad == "", id, "plain-decoding", 0, fmt.Sprintf("%d configuration types, none decodes itself", nTypes), "configuration types with their own decoding:"+bad+" — the two-pass load (raw, then substituted) is no longer an overwrite")
 }
+
+// eventsNotMutated (C03): what the consumer receives is what the server sent: the library never writes into an event it
+// was handed. No store into a field of a gocbcore Dcp* event struct or of a models wrapper of one, no element store into
+// a byte slice read from such a field, and no mutation through reflection anywhere in the module ((reflect.Value).Set*,
+// reflect.Copy/Append on values) — a "clipped copy" made by reflection shares the embedded event.
+func eventsNotMutated(c *Ctx, id string) {
+	w := c.W
+	isEventType := func(t types.Type) bool {
+		for {
+			p, ok := t.(*types.Pointer)
+			if !ok {
+				break
+			}
+			t = p.Elem()
+		}
+		n, ok := t.(*types.Named)
+		if !ok || n.Obj().Pkg() == nil {
+			return false
+		}
+		path, name := n.Obj().Pkg().Path(), n.Obj().Name()
+		if strings.Contains(path, "gocbcore") && strings.HasPrefix(name, "Dcp") {
+			return true
+		}
+		return strings.HasSuffix(path, "/models") && (strings.HasPrefix(name, "Dcp") || strings.HasPrefix(name, "InternalDcp"))
+	}
+	nReflect := 0
+	var bad []string
+	for _, fn := range w.ModFuncs {
+		allInstrs(fn, func(in ssa.Instruction) {
+			switch x := in.(type) {
+			case *ssa.Store:
+				switch a := x.Addr.(type) {
+				case *ssa.FieldAddr:
+					if isEventType(a.X.Type()) {
+						// building the wrapper literal (a fresh allocation of a models type) is not a mutation
+						if _, fresh := unwrap(a.X).(*ssa.Alloc); fresh {
+							return
+						}
+						bad = append(bad, "store into "+w.Origin(x.Addr)+" @"+w.pos(in.Pos()))
+					}
+				case *ssa.IndexAddr:
+					// an element of a slice read from an event field
+					if ld, ok := unwrap(a.X).(*ssa.UnOp); ok {
+						if fa, ok := ld.X.(*ssa.FieldAddr); ok && isEventType(fa.X.Type()) {
+							bad = append(bad, "element store into "+w.Origin(a.X)+" @"+w.pos(in.Pos()))
+						}
+					}
+					if f, ok := unwrap(a.X).(*ssa.Field); ok && isEventType(f.X.Type()) {
+						bad = append(bad, "element store into "+w.Origin(a.X)+" @"+w.pos(in.Pos()))
+					}
+				}
+			case ssa.CallInstruction:
+				name := calleeName(x.Common())
+				if !strings.Contains(name, "reflect.") {
+					return
+				}
+				nReflect++
+				if strings.HasPrefix(name, "(reflect.Value).Set") || name == "reflect.Copy" || name == "reflect.Append" || name == "reflect.AppendSlice" || strings.HasPrefix(name, "(reflect.Value).Grow") || strings.HasPrefix(name, "(reflect.Value).Clear") {
+					bad = append(bad, name+" @"+w.pos(in.Pos()))
+				}
+			}
+		})
+	}
+	c.Check(len(bad) == 0 && nReflect >= 3, id, "events-not-mutated", 0, fmt.Sprintf("no store into an event, no mutation through reflection (%d reflect calls, all reads)", nReflect), "the library writes into values it was handed: "+strings.Join(bad, "; "))
+}
+
+// observerMapWriters (C03/C07): one observer per vBucket per session: the observers map is filled by Open (and the
+// helpers only Open reaches) and by nothing that runs during the session — a stream re-opened after a transient end
+// keeps its observer, and with it the persistence watermark, the catch-up point and the counters.
+func observerMapWriters(c *Ctx, id string) {
+	w := c.W
+	open := w.Method("stream", "stream", "Open")
+	c.need(open != nil, id, "stream.Open")
+	obsIface := w.NamedType("couchbase", "Observer")
+	c.need(obsIface != nil, id, "couchbase.Observer")
+	isObserverMap := func(t types.Type) bool {
+		return isCSMapOf(t, func(v types.Type) bool { return types.Identical(v, obsIface) })
+	}
+	writers := map[*ssa.Function][]ssa.Instruction{}
+	for _, fn := range w.ModFuncs {
+		if r := rootFn(fn); r.Signature.Recv() != nil && recvTypeName(r.Signature.Recv().Type()) == "ConcurrentSwissMap" {
+			continue // the map's own methods (decoding into itself)
+		}
+		allInstrs(fn, func(in ssa.Instruction) {
+			cc := callOf(in)
+			if cc == nil {
+				return
+			}
+			m, recv := csmapMethod(cc)
+			if (m == "Store" || m == "StoreIf") && recv != nil && isObserverMap(recv.Type()) {
+				writers[rootFn(fn)] = append(writers[rootFn(fn)], in)
+			}
+		})
+	}
+	// every writer is Open or is reached only from Open
+	var onlyFromOpen func(f *ssa.Function, depth int) bool
+	onlyFromOpen = func(f *ssa.Function, depth int) bool {
+		if f == open {
+			return true
+		}
+		if depth > 3 {
+			return false
+		}
+		cs := w.callersOf(f)
+		if len(cs) == 0 || len(w.usesAsValue(f)) > 0 {
+			return false
+		}
+		for _, c := range cs {
+			if !onlyFromOpen(rootFn(c.Fn), depth+1) {
+				return false
+			}
+		}
+		return true
+	}
+	bad := ""
+	n := 0
+	for f, ins := range writers {
+		n += len(ins)
+		if !onlyFromOpen(f, 0) {
+			bad += " " + fname(f) + "@" + w.pos(ins[0].Pos())
+		}
+	}
+	c.Check(n > 0 && bad == "", id, "observer-map-writers", open.Pos(), fmt.Sprintf("%d store(s) into the observers map, all on Open's path", n), "an observer is installed outside Open:"+bad+" — a stream re-opened during the session would lose its persistence watermark, catch-up point and counters")
+}
+
+// lossySignals (C03/C07/C13): a wake-up that may be dropped must not be the only thing a waiter waits for. A
+// non-blocking send (select with default) is harmless on a channel with a buffer — the token stays for the next
+// receive — and loses the signal on an unbuffered one whenever the receiver is between its check and its receive. For
+// every non-blocking send on a channel field of a module type, every make() stored into that field has capacity ≥ 1.
+func lossySignals(c *Ctx, id string) {
+	w := c.W
+	n := 0
+	var bad []string
+	for _, fn := range w.ModFuncs {
+		allInstrs(fn, func(in ssa.Instruction) {
+			sel, ok := in.(*ssa.Select)
+			if !ok || sel.Blocking {
+				return
+			}
+			for _, stt := range sel.States {
+				if stt.Dir != types.SendOnly {
+					continue
+				}
+				n++
+				ld, isLd := unwrap(stt.Chan).(*ssa.UnOp)
+				if !isLd {
+					continue
+				}
+				f := fieldOfAddr(ld.X)
+				if f == nil {
+					continue
+				}
+				for _, fs := range w.fieldStores(f) {
+					if mk, isMk := unwrap(fs.Store.Val).(*ssa.MakeChan); isMk {
+						if k, isK := mk.Size.(*ssa.Const); isK && w.Origin(k) == "const(0)" {
+							bad = append(bad, fmt.Sprintf("non-blocking send on %s @%s, made unbuffered @%s", f.Name(), w.pos(in.Pos()), w.pos(mk.Pos())))
+						}
+					}
+				}
+			}
+		})
+	}
+	// (no such send on the reference tree: the waits poll; the rule arms itself when one is introduced)
+	c.Check(len(bad) == 0, id, "lossy-signal", 0, fmt.Sprintf("%d non-blocking sends, none on an unbuffered channel", n), "a wake-up can be lost: "+strings.Join(bad, "; "))
+}
